@@ -238,6 +238,36 @@ def tv_case(draw):
     return case
 
 
+def rescaled(ctx, T, v):
+    """a scaled type (or an array of it) whose scale is changed after construction, as the configuration of a module does
+    (x = Param(scale=0.01)): all conversions use the scale in effect. The type is built with a ten times coarser grid and then
+    given the scale of T; it must behave as T built directly"""
+    leaf = T
+    while leaf['k'] == 'array':
+        leaf = leaf['of']
+    if leaf['k'] != 'scaled' or leaf.get('abs') or abs(leaf['lo']) % 10 or abs(leaf['hi']) % 10:
+        return
+
+    def coarse(t):
+        if t['k'] == 'array':
+            return dict(t, of=coarse(t['of']))
+        return dict(t, scale=t['scale'] * 10, lo=t['lo'] // 10, hi=t['hi'] // 10)
+    try:
+        dt = specs.build(coarse(T))
+        dt.setProperty('scale', leaf['scale'])
+        dt.checkProperties()
+        want = json.loads(json.dumps(specs.build(T).export_datatype()))
+        got = json.loads(json.dumps(dt.export_datatype()))
+    except Exception as e:   # noqa
+        ctx.label(f'rescale-not-possible:{type(e).__name__}')
+        return
+    if got != want:
+        ctx.label('rescaled-type-described-differently')      # (limits are kept as physical values: rounding may differ)
+        return
+    ctx.label('rescaled')
+    evaluate(ctx, T, v, dt=dt)
+
+
 def run_shard(ctx, shard):
     drive(tv_case(), lambda case: run_case(ctx, case), shard['n'], ctx.seed * 1000 + shard['idx'])
     if shard['idx'] == 0:
@@ -261,6 +291,8 @@ def run_case(ctx, case):
             cdt = None
         for v in case['vs']:
             evaluate(ctx, T, v, dt, cdt)
+        for v in case['vs'][:3]:
+            rescaled(ctx, T, v)
         if case.get('partial') is not None and cdt is not None:
             partial_clause(ctx, T, case['vs'][0], case['partial'], dt, cdt)
     elif case['kind'] == 'partial':
@@ -270,3 +302,4 @@ def run_case(ctx, case):
         partial_clause(ctx, case['T'], case['full'], case['part'], dt, cdt)
     else:
         evaluate(ctx, case['T'], case['v'])
+        rescaled(ctx, case['T'], case['v'])
